@@ -64,6 +64,11 @@ def tasks(tier, seed):
         for plus in (False, True):
             out.append({"key": f"iterate/n{n_}/limit{lim}/{'plus' if plus else 'plain'}/prefix=[]/above", "kind": "iterate", "n": n_, "limit": lim,
                         "plus": plus, "prefix": []})
+    # an iteration that lists only PART of the terminal nodes: the unlisted ones count as loss 0 - exactly as if they were listed with 0
+    for n_, lim, pf in ((3, 1, [[1, 2, 0]]), (3, 2, [[1, 0, 2], [0, 3, 1]]), (3, 2, []), (4, 1, [[1] * 10])):
+        for plus in (False, True):
+            out.append({"key": f"partial/n{n_}/limit{lim}/{'plus' if plus else 'plain'}/prefix#{len(pf)}", "kind": "partial", "n": n_, "limit": lim,
+                        "plus": plus, "prefix": pf})
     # a saved-then-loaded minimiser continues identically (np.save / np.load replaced by an array store, see STUBS)
     sl = [(3, 1, [[1, 0, 0]]), (3, 2, [[1, 0, 0], [0, 3, 1]]), (3, 2, []), (3, 3, [[2]]), (3, 4, [[1]]), (4, 1, [[1] + [0] * 9])]
     if tier == "thorough":
@@ -89,7 +94,7 @@ def _nterm(n, limit):
 
 
 def setup(params, inp, lg):
-    if params["kind"] not in ("iterate", "saveload"):
+    if params["kind"] not in ("iterate", "saveload", "partial"):
         return []
     return [lg.ge(inp.real(f"t{i}"), 0) for i in range(_nterm(params["n"], params["limit"]))]
 
@@ -117,6 +122,8 @@ def scenario(pk, params, inp):
                 "regret_shape": list(m.cumulative_regret.shape), "plus_flag": bool(plus.plus)}
     if params["kind"] == "saveload":
         return _saveload(pk, params, inp)
+    if params["kind"] == "partial":
+        return _partial(pk, params, inp)
     m = R.GameRegretMinimizer(n, limit, plus=params["plus"])
     bottom, viable = _bottom(pk, n, limit)
     nt = len(bottom)
@@ -235,6 +242,40 @@ def _saveload(pk, params, inp):
     return {"at_save": at_save, "at_load": at_load, "cont_orig": cont_orig, "cont_loaded": cont_loaded, "again": again, "latest": latest}
 
 
+def _partial(pk, params, inp):
+    """Twin minimisers with the same history; one is fed a partial listing of the terminal nodes, the other the full listing with zeros
+    at the unlisted ones."""
+    import numpy as np
+    n, limit = params["n"], params["limit"]
+    R = pk.regret
+    bottom, viable = _bottom(pk, n, limit)
+    nt = len(bottom)
+
+    def conc(pf):
+        return np.array([inp.const(x) if pk.symbolic else float(x) for x in pf], dtype=object if pk.symbolic else float)
+    twins = [R.GameRegretMinimizer(n, limit, plus=params["plus"]) for _ in range(2)]
+    for m in twins:
+        for pf in params["prefix"]:
+            m.regret_min_iteration(conc(pf), bottom)
+    # first a CONCRETE partial call listing the odd-ranked terminal nodes (whatever it leaves behind must not matter afterwards) ...
+    other = [i for i in range(nt) if i % 2 == 1]
+    if other:
+        twins[0].regret_min_iteration(conc([(i % 3) + 1 for i in other]), [bottom[i] for i in other])
+        twins[1].regret_min_iteration(conc([((i % 3) + 1) if i % 2 == 1 else 0 for i in range(nt)]), bottom)
+    # ... then the call with FREE losses listing the even-ranked ones (last, so that every term stays linear in the free losses)
+    listed = [i for i in range(nt) if i % 2 == 0]
+    t_part = np.empty(len(listed), dtype=object if pk.symbolic else float)
+    t_full = np.empty(nt, dtype=object if pk.symbolic else float)
+    for i in range(nt):
+        t_full[i] = inp.const(0) if pk.symbolic else 0.0
+    for j, i in enumerate(listed):
+        t_part[j] = inp.real(f"t{i}")
+        t_full[i] = inp.real(f"t{i}")
+    twins[0].regret_min_iteration(t_part, [bottom[i] for i in listed])
+    twins[1].regret_min_iteration(t_full, bottom)
+    return {"partial": _snapshot(pk, twins[0], viable), "full": _snapshot(pk, twins[1], viable)}
+
+
 def _snap_equal(lg, a, b, tol=None):
     if any(a[k] != b[k] for k in ("iteration", "plus", "players", "limit", "minimizers")) or len(a["nodes"]) != len(b["nodes"]):
         return False
@@ -249,6 +290,8 @@ def _snap_equal(lg, a, b, tol=None):
 
 def claims(params, inp, out, lg):
     from math import comb
+    if params["kind"] == "partial":
+        return [("unlisted-terminal-nodes-count-as-zero-loss", _snap_equal(lg, out["partial"], out["full"]), "C14/partial-listing")]
     if params["kind"] == "saveload":
         return [("loaded-equals-saved", _snap_equal(lg, out["at_save"], out["at_load"]), "C14/saveload/loaded-differs"),
                 ("loaded-continues-identically", _snap_equal(lg, out["cont_orig"], out["cont_loaded"]), "C14/saveload/continues-differently"),
@@ -302,6 +345,8 @@ def claims(params, inp, out, lg):
 
 
 def canaries(params, inp, out, lg):
+    if params["kind"] == "partial":
+        return []
     if params["kind"] == "saveload":
         # false on purpose: continuing would have to change nothing
         return [("canary-continuing-changes-nothing", _snap_equal(lg, out["at_save"], out["cont_orig"]))]
@@ -327,7 +372,7 @@ def signature(params, v):
 
 
 def test_vectors(params):
-    if params["kind"] not in ("iterate", "saveload"):
+    if params["kind"] not in ("iterate", "saveload", "partial"):
         return []
     rnd = random.Random(params["key"])
     nt = _nterm(params["n"], params["limit"])
